@@ -215,10 +215,19 @@ def build_region(r):
                 r.changed = False
             else:
                 r.dropped = []
-                merged = merge.merge3(base, ann, cur, r.dropped)
-                back = erase.erase(merged)
+                coarse = bool(r.opts.get("_coarse"))
+                merged = merge.merge3(base, ann, cur, r.dropped, coarse=coarse)
+                try:
+                    back = erase.erase(merged)
+                except (erase.EraseError, lex.LexError):
+                    back = None
+                if back != cur and not coarse:
+                    # second attempt: treat the whole changed middle as rewritten (annotations inside it are dropped)
+                    r.dropped = []
+                    merged = merge.merge3(base, ann, cur, r.dropped, coarse=True)
+                    back = erase.erase(merged)
                 if back != cur:
-                    raise Inconclusive("erasure check failed after merge for %s:\n%s" % (r.name, _tokdiff(back, cur)))
+                    raise Inconclusive("erasure check failed after merge for %s:\n%s" % (r.name, _tokdiff(back or [], cur)))
                 r.out_text = lex.render(merged, "    ")
                 r.changed = True
                 r.diff = _tokdiff(base, cur)
@@ -313,7 +322,7 @@ def _isolate(chunks, pid):
     return [c if isinstance(c, Region) else filt(c) for c in chunks]
 
 
-def build(unit, outdir, canary=False, pid=None):
+def build(unit, outdir, canary=False, pid=None, coarse=()):
     """assemble the unit from the current tree -> Built(path, regions, text)"""
     tpath = os.path.join(CONTRACTS, unit + ".rs")
     chunks = _isolate(parse_template(tpath, unit), pid)
@@ -321,6 +330,8 @@ def build(unit, outdir, canary=False, pid=None):
     errors = []
     for r in regions:
         try:
+            if r.name in coarse:
+                r.opts["_coarse"] = "1"
             build_region(r)
         except Inconclusive as e:
             r.error = str(e)
